@@ -69,7 +69,8 @@ def _compile(pattern: str, bound: Dict[str, str]) -> Tuple[re.Pattern, List[str]
                 rx += f"(?P={name})"
             else:
                 new.append(name)
-                rx += f"(?<![A-Za-z_0-9.])(?P<{name}>{_IDENT})(?![A-Za-z_0-9])"
+                # a metavariable stands for a variable: a local name or an attribute path such as self.current_point
+                rx += f"(?<![A-Za-z_0-9.])(?P<{name}>{_IDENT}(?:\\.{_IDENT})*?)(?![A-Za-z_0-9])"
         else:
             rx += re.escape(p)
     return re.compile(rx), new
